@@ -179,7 +179,8 @@ def build(repo=None):
             ob.setdefault("kind", "vc")
             ob["function"] = fn_label
             c = ob["clause"]
-            ob["serves"] = ([c.split(":")[0]] + (["C12", "C09"] if c[:3] == "C05" else [])) if c[:3] in ("C05", "C07", "C13", "C19", "C02") else None  # C05 stack-balance clauses are also C12's restore obligations
+            if not ob.get("serves"):
+                ob["serves"] = ([c.split(":")[0]] + (["C12", "C09"] if c[:3] == "C05" else [])) if c[:3] in ("C05", "C07", "C13", "C19", "C02") else None  # C05 stack-balance clauses are also C12's restore obligations
             if ob["serves"] is None:
                 ob.pop("serves")
             obligations.append(ob)
@@ -407,11 +408,17 @@ def build(repo=None):
         touched = s1.ghost["pushes"] > 0 or any(e["callee"] == "bind" for e in log)
         eng.oblige(s1, "C19:old-style:a-context-is-opened-or-the-arguments-bound-only-when-checking-is-on(switch-and-no_type_check-read-at-call-time)", z3.Not(off) if touched else z3.BoolVal(True))
         eng.oblige(s1, "C19:old-style:with-checking-on-the-call-runs-in-its-own-context", off if (not touched and fn_calls) else z3.BoolVal(True))
+        bind_failed = any(e["callee"] == "bind" and e.get("exc") is not None for e in log)
+        if bind_failed:
+            # a call that does not bind: the TypeError of Signature.bind leaves the wrapper before anything runs -- on EVERY such path, caught or not
+            # (a wrapper that swallows it and calls the function anyway runs the body and its checks in the CALLER's context: C05)
+            eng.oblige(s1, "C07:old-style:non-binding-call-raises-before-anything-runs", z3.BoolVal(o.kind == "raise" and o.val.origin == "bind" and not fn_calls and s1.ghost["pushes"] == 0))
+            s1.obl[-1]["serves"] = ["C07", "C05"]
         if o.kind == "return":
             eng.oblige(s1, "C07:old-style:result-is-the-body-result", z3.BoolVal(len(fn_calls) == 1 and o.val is fn_calls[0]["ret"]))
         elif o.kind == "raise":
             if o.val.origin == "bind":
-                eng.oblige(s1, "C07:old-style:non-binding-call-raises-before-anything-runs", z3.BoolVal(not fn_calls and s1.ghost["pushes"] == 0))
+                pass  # judged above
             else:
                 eng.oblige(s1, "C07:old-style:body-exception-propagates-as-the-same-object", z3.BoolVal(bool(fn_calls) and o.val.same(fn_calls[0]["exc"])))
         else:
